@@ -825,6 +825,10 @@ fn table() -> Vec<(&'static str, Ret, String)> {
         ("rt-contains-string", Ret::U32, f("u32", "let l: List[String] = []; let i = 0; while i < n { l.push(f\"a{i}\"); i = i + 1; } if l.contains(f\"a{m}\") { 1 } else { 0 }")),
         ("rt-index-string", Ret::U32, f("u32", "let l: List[String] = []; let i = 0; while i < n { l.push(s + f\"{i}\"); i = i + 1; } match l.index(s + f\"{m}\") { Some(i) => 1, None => 0 }")),
         ("rt-contains-list", Ret::U32, f("u32", "let l: List[List[Tk]] = []; let i = 0; while i < n { l.push(many(i)); i = i + 1; } if l.contains(many(m)) { 1 } else { 0 }")),
+        // element types whose drop function is generated glue (the vtable's drop_fn)
+        ("rt-contains-enum", Ret::U32, f("u32", "let l: List[E] = []; let i = 0; while i < n { l.push(E.B(s, mk(i))); i = i + 1; } if l.contains(if c { E.A(mk(m)) } else { E.B(s, mk(m)) }) { 1 } else { 0 }")),
+        ("rt-index-record", Ret::U32, f("u32", "let l: List[R] = []; let i = 0; while i < n { l.push(R { a: mk(i), b: s, k: i }); i = i + 1; } match l.index(R { a: mk(m), b: s, k: m }) { Some(j) => 1, None => 0 }")),
+        ("rt-contains-option", Ret::U32, f("u32", "let l: List[Tk?] = []; let i = 0; while i < n { l.push(maybe(c, i)); i = i + 1; } if l.contains(Some(mk(m))) { 1 } else { 0 }")),
         ("rt-seen-loop", Ret::U32, f("u32", "let seen: List[Tk] = []; for e in many(n) + many(m) { if !seen.contains(e) { seen.push(e); } } count(seen)")),
         ("rt-push-get-swap-concat", Ret::U32, f("u32", "let l = many(n); l.push(t); l.swap(0, 1); let a = l.concat(many(m)); let k = match a.get(1) { Some(x) => id(x), None => 0 }; if a.is_empty() { k } else { k + 1 }")),
     ]
@@ -998,7 +1002,7 @@ fn run_corpus(rep: &mut Report, repo: &str) {
         }
     }
     rep.notes.push(format!(
-        "corpus: {} scripts harvested, {} compile with the harness runtime, {} MIR items / {} blocks accepted by ownCheck",
+        "corpus: {} scripts harvested, {} compile with the harness runtime, {} MIR items / {} blocks accepted by ownCheck and varCheck",
         scripts.len(), compiled, items, blocks
     ));
 }
